@@ -215,7 +215,9 @@ class ProcessDiameterMessage:
     @staticmethod
     def is_valid_host_ip_address_avp(avp, connection):
         if (avp.code == HOST_IP_ADDRESS_AVP_CODE):
-            host_ip_address = "{}.{}.{}.{}".format(int(avp.data[2]),int(avp.data[3]),int(avp.data[4]),int(avp.data[5]))
+            #: The address is not compared with anything (see below): nothing
+            #: is read from the data, which a foreign vendor's AVP of the
+            #: same code may not even hold.
             return True
             # if connection.peer_node.ip_address == host_ip_address:
             #     return True
